@@ -211,6 +211,49 @@ func roundTrip(c config, plain string, w wpath, prev string, thorough bool) []fi
 
 func rname(r rpath) string { return r.Name }
 
+// alternation: one encrypted filespace holds two files written one after the other with different
+// write paths and lengths; a second filespace with another secret over another base does the same
+// in between; every file must read back as written, and the foreign secret must not open anything.
+func alternation(c config, p1, p2 string, w1, w2 wpath, r rpath) []finding {
+	var out []finding
+	add := func(kind, detail string) {
+		out = append(out, finding{kind, "whatever is written through the encrypted filespace is read back identically by a filespace with the same secret, salt and host binding", detail, witness{Config: c, Part: "alternation", PlainN: len(p1), W: w1.Name, R: r.Name, Prev: fmt.Sprintf("%d/%s", len(p2), w2.Name)}})
+	}
+	baseA, doneA := newBase(c.Base)
+	defer doneA()
+	baseB, doneB := newBase("mem")
+	defer doneB()
+	other := c
+	other.Secret = c.Secret + "-other"
+	fa, fb := enc(baseA, c), enc(baseB, other)
+	pa1, pa2 := "A1:"+p1, "A2:"+p2
+	pb1, pb2 := "B1:"+p2, "B2:"+p1
+	steps := []struct {
+		fs   filesystem.Filespace
+		name string
+		data string
+		w    wpath
+	}{{fa, "one.bin", pa1, w1}, {fb, "one.bin", pb1, w2}, {fa, "two.bin", pa2, w2}, {fb, "two.bin", pb2, w1}}
+	for _, st := range steps {
+		if res := write(st.fs, st.name, st.data, st.w); res.Err != "" || res.Panic != "" {
+			add("alternation-write-failed", fmt.Sprintf("%s via %s: %s%s", st.name, st.w.Name, res.Err, res.Panic))
+			return out
+		}
+	}
+	for _, st := range steps {
+		res := read(st.fs, st.name, r)
+		if res.Panic != "" || res.Err != "" || res.Data != st.data {
+			add("alternation-read-differs", fmt.Sprintf("two filespaces and two files each, written in alternation: %s (written via %s, %d bytes) reads back err=%q panic=%q data=%s", st.name, st.w.Name, len(st.data), res.Err, res.Panic, short(res.Data)))
+			return out
+		}
+	}
+	// the other filespace's secret over this base
+	if res := read(enc(baseA, other), "one.bin", r); res.Panic != "" || res.Err == "" {
+		out = append(out, finding{"alternation-other-secret-accepted", "bytes produced with another secret are answered with an error", fmt.Sprintf("one.bin read with the other filespace's secret: err=%q panic=%q data=%s", res.Err, res.Panic, short(res.Data)), witness{Config: c, Part: "alternation", PlainN: len(p1), W: w1.Name, R: r.Name}})
+	}
+	return out
+}
+
 func short(s string) string {
 	if len(s) > 12 {
 		return fmt.Sprintf("%s...(%d bytes)", s[:12], len(s))
@@ -483,6 +526,25 @@ func run(c *fw.Ctx) {
 				}
 			}
 		}
+		// part A2: several files and two filespaces used in alternation (state shared between files or
+		// between filespace objects - pooled buffers, remembered keys - must not leak from one to the other)
+		for i1, p1 := range plains {
+			for i2, p2 := range plains {
+				item++
+				if !c.Mine(item) || len(p1) > 5000 || len(p2) > 5000 {
+					continue
+				}
+				for _, w1 := range wpaths {
+					for _, w2 := range wpaths {
+						c.R.Evaluations++
+						c.Count("alternation_cases", 1)
+						for _, f := range alternation(cfg, p1, p2, w1, w2, rpaths[(i1+i2)%len(rpaths)]) {
+							report(f)
+						}
+					}
+				}
+			}
+		}
 		// part B: other keys
 		item++
 		if c.Mine(item) {
@@ -660,6 +722,8 @@ func replay(w json.RawMessage) (*fw.Violation, error) {
 		if res.Panic != "" || res.Err == "" {
 			return mkv("tamper", "bad stored bytes are answered with an error", fmt.Sprintf("err=%q panic=%q data=%q", res.Err, res.Panic, short(res.Data))), nil
 		}
+	case "alternation":
+		return nil, fmt.Errorf("alternation witnesses are replayed by re-running the check")
 	case "namespace":
 		return nil, fmt.Errorf("name-space witnesses are replayed by re-running the check")
 	}
@@ -668,7 +732,7 @@ func replay(w json.RawMessage) (*fw.Violation, error) {
 
 func init() {
 	fw.Register(&fw.Check{ID: "C05", Level: "fault_enumeration",
-		Rule: "configurations = cipher{raw AES-GCM, tagged} x base{memory, disk} x secret{alpha,beta,''} x salt{salt1,salt2,''} x host-binding{off,on}; plaintexts of length {0,1,16,17,4096,(thorough: 15,33,70000)}; write path {WriteFile, Writer 1/3 chunks} x previous content {absent, shorter, longer} x read path {ReadFile, Reader buf 1/7/4096}; every other (secret,salt) of the pool plus one concatenation-colliding pair; two filespaces built from one caller-owned secret buffer with spare capacity and different salts, and the caller wiping its buffers afterwards; EVERY truncation length 0..N-1 and EVERY single-byte corruption (N positions x 255 values for short files; 3 values and strided interior positions for files > 300 bytes) of the stored bytes, each read on a fresh base; name-space ops in lock-step with the tree model; plus 2-3 filespaces with different (and equal) secrets used from concurrent goroutines (write then read own file, then try every other tenant's secret on it) under every schedule with <= 2 (quick) / 3 (thorough) preemptions, with the race oracle on the encryptfs packages. distinct = cases, all non-trivial (each runs the real cipher)",
+		Rule: "configurations = cipher{raw AES-GCM, tagged} x base{memory, disk} x secret{alpha,beta,''} x salt{salt1,salt2,''} x host-binding{off,on}; plaintexts of length {0,1,16,17,4096,(thorough: 15,33,70000)}; write path {WriteFile, Writer 1/3 chunks} x previous content {absent, shorter, longer} x read path {ReadFile, Reader buf 1/7/4096}; every other (secret,salt) of the pool plus one concatenation-colliding pair; two filespaces built from one caller-owned secret buffer with spare capacity and different salts, and the caller wiping its buffers afterwards; EVERY truncation length 0..N-1 and EVERY single-byte corruption (N positions x 255 values for short files; 3 values and strided interior positions for files > 300 bytes) of the stored bytes, each read on a fresh base; two filespaces (different secrets) x two files each written in alternation over all plaintext pairs x write-path pairs; name-space ops in lock-step with the tree model; plus 2-3 filespaces with different (and equal) secrets used from concurrent goroutines (write then read own file, then try every other tenant's secret on it) under every schedule with <= 2 (quick) / 3 (thorough) preemptions, with the race oracle on the encryptfs packages. distinct = cases, all non-trivial (each runs the real cipher)",
 		Run: run, Replay: replay,
 		Assumptions: []string{"crypto/rand.Reader is replaced by a deterministic never-repeating stream (nonce freshness stays observable)", "cryptographic strength is out of scope; host binding is exercised but a binding mismatch is not required to fail (the statement does not demand it)", "secrecy = stored bytes do not contain the plaintext (>= 8 bytes) nor its first 16 bytes"}})
 }
